@@ -224,6 +224,14 @@ pub fn pool() -> Vec<String> {
     ] {
         v.push(s.to_string());
     }
+    for s in [
+        "Deglaze with 2 fl oz of rum, then add 150 ml of stock and simmer.", "Boil 1 l of water for 10 minutes.", "Add 3 fluid ounces of cream and 2 fl. oz. of milk at 70 F.", "Use 5 big handfuls and 2 large eggs, 1 c of milk.",
+        ">> source: grandma\n>> tags: soup\n>> servings: 2\n>> source: the internet\n>> tags: soup, winter\n>> servings: 4\nSimmer.\n",
+        ">> a: 1\n>> b: 2\n>> c: 3\n>> a: 4\n>> b: 5\n>> c: 6\n>> a: 7\nx", "---\na: 1\nb: 2\n---\n>> a: 3\n>> b: 4\n>> a: 5\n>> b: 6\n",
+        "Serve with @./seeded sauces/tomato sauce{300%ml} and @parmesan.", "Use @../basics/stock{1%l} and @./x{}.",
+    ] {
+        v.push(s.to_string());
+    }
     for s in ["Heat the #&pan{} first.", "Use the #&pot{} and the @&flour{} again.", "Add @&flour{} to the #&bowl{}.", ">> [mode]: steps\nUse #pan and @salt here.\n", ">> [duplicate]: ref\n#&lid{} then ~&rest{5%min}"] {
         v.push(s.to_string());
     }
@@ -253,6 +261,9 @@ fn configs() -> Vec<(Extensions, Converter, &'static str)> {
         // a converter whose time units have other names and no `min`/`minute`/`m`: what one parser learns about units
         // must not reach a parser that was built with other units
         (Extensions::all(), crate::mon::c13::renamed_converter(false).0, "all/renamed_time_units"),
+        // every extension with a converter that knows no unit at all: what the unit-aware scans learn from one
+        // converter must not reach a parser built with another
+        (Extensions::all(), Converter::empty(), "all/empty"),
     ]
 }
 
@@ -262,6 +273,31 @@ fn sequential(ctx: &mut Ctx, pool: &[String], log: &mut Log, calls: usize) {
     let cfgs = configs();
     let parsers: Vec<CooklangParser> = cfgs.iter().map(|(e, c, _)| CooklangParser::new(*e, c.clone())).collect();
     let mut r = Rng::new(ctx.seed ^ ((ctx.shard as u64) << 20));
+    // a directory in which every recipe the pool refers to by path exists as a file: parsing from inside it (another
+    // current directory, other files on disk) is the same parse
+    let here = std::env::current_dir().ok();
+    let elsewhere = std::env::temp_dir().join(format!("vmon-c18-{}-{}", std::process::id(), ctx.shard));
+    let mut files_made = 0;
+    for text in pool {
+        for (at, _) in text.match_indices("@.") {
+            let rest = &text[at + 1..];
+            let end = rest.find(['{', '\n']).unwrap_or(rest.len());
+            let rel = rest[..end].trim();
+            if rel.len() < 3 || rel.contains('\\') || rel.contains("..") && rel.matches("../").count() > 1 {
+                continue;
+            }
+            // `../x` is created relative to a sub directory in which the parse then runs
+            let base = elsewhere.join("cwd");
+            let path = base.join(format!("{rel}.cook"));
+            if let Some(parent) = path.parent() {
+                if std::fs::create_dir_all(parent).is_ok() && std::fs::write(&path, "Boil.\n").is_ok() {
+                    files_made += 1;
+                }
+            }
+        }
+    }
+    let elsewhere_cwd = elsewhere.join("cwd");
+    ctx.count_n("referenced_recipe_files_created", files_made);
     // the order in which the parsers are first used differs from process to process
     let mut k = 0usize;
     for _ in 0..calls * cfgs.len() {
@@ -273,6 +309,11 @@ fn sequential(ctx: &mut Ctx, pool: &[String], log: &mut Log, calls: usize) {
         let opt = if k % 3 == 1 { 1 + r.below(5) } else { 0 };
         // one call in eight runs with a listener for every tracing level installed on this thread
         let listened = k % 8 == 5;
+        // one call in nine runs from inside the other directory
+        let moved = k % 9 == 4 && files_made > 0 && here.is_some() && std::env::set_current_dir(&elsewhere_cwd).is_ok();
+        if moved {
+            ctx.count("calls_from_another_current_directory");
+        }
         let res = crate::core::guarded(|| {
             let img = if listened { tracing::subscriber::with_default(AllLevels, || image_with(parser, &pool[i], opt)) } else { image_with(parser, &pool[i], opt) };
             // interleave other operations on the same parser between parses
@@ -285,6 +326,11 @@ fn sequential(ctx: &mut Ctx, pool: &[String], log: &mut Log, calls: usize) {
             }
             img
         });
+        if moved {
+            if let Some(h) = &here {
+                let _ = std::env::set_current_dir(h);
+            }
+        }
         match res {
             Ok(img) => {
                 log.record(i, ci + 10 * opt, hash64(img.as_bytes()));
@@ -394,6 +440,7 @@ fn sequential(ctx: &mut Ctx, pool: &[String], log: &mut Log, calls: usize) {
             }
         }
     }
+    let _ = std::fs::remove_dir_all(&elsewhere);
 }
 
 fn threaded(ctx: &mut Ctx, pool: &[String], log: &mut Log, nthreads: usize, ops: usize, rounds: usize) {
